@@ -8,14 +8,18 @@ import RV.C04.QueryLemmas
   `push μ0 Ω`                Join(Ω, {μ0}):  the solutions of Ω compatible with μ0, merged with it
   Bags are lists modulo `List.Perm`.
 
-  Statements first (full strength), then what is proved:
-    * `pushdown_partial`, `eval_correct_partial`, `ask_correct_partial`, `construct_correct_partial`
-      for the operators named by `Alg.inFragment` (BGP incl. rdflib's re-ordering, lazy and non-lazy Join, Union,
-      Filter / Extend / LeftJoin with EXISTS-free expressions, Values, Minus, Graph, sub-select — every operator of
-      the property; the only restriction is "no EXISTS / NOT EXISTS in an expression") under `Alg.safe`;
-    * `*_witness`: the three ways rdflib's `_vars` annotation is inexact (known findings C04-K1..K3) falsify the
-      unconditional statement on concrete queries — which is why `Alg.safe` is a hypothesis;
-    * queries with EXISTS / NOT EXISTS are covered by `Statement_pushdown` only as a statement; the harness checks model ≡ implementation ≡ specification on them on every run.
+  Statements first, then what is proved:
+    * `Statement_pushdown_unconditional` is what C04 literally asks (every well-formed query).  It is FALSE of the
+      pinned code: `pushdown_witness_K1..K3`, `pushdown_unconditional_witness` (known findings C04-K1..K3: rdflib's
+      `_vars` annotation is not the exact set of variables a sub-pattern binds).
+    * `pushdown : Statement_pushdown` (= `pushdown_partial`): under the decidable hypothesis `Alg.safe` push-down is
+      exact for EVERY operator of the property — BGP incl. rdflib's re-ordering, lazy and non-lazy Join, Union,
+      Filter, LeftJoin (with the re-check under `remember`), Extend, Values, Minus, Graph, sub-select, and
+      expressions with comparisons, three-valued logic, bound, EXISTS / NOT EXISTS (patterns `Alg.existsOK`).
+    * `eval_correct : Statement_eval_correct` (SELECT / ASK / CONSTRUCT with a blank-node-free template),
+      `ask_correct`, `construct_correct`.
+    * only stated: `Statement_construct_correct_blank` (CONSTRUCT templates with blank nodes: equality up to a
+      renaming of the minted nodes; checked by the harness).
 -/
 namespace RV.C04
 open Spec Model
@@ -62,43 +66,62 @@ def Statement_eval_correct : Prop :=
   ∀ (n : Nat) (D : Dataset) (q : Query), D.WF → q.safe = true → WellScoped n q.pattern → q.groundTemplate →
     ResultEq (Model.evalQuery (n := n) D q) (Spec.evalQuery D q)
 
-/-! ### Proved: the fragment -/
+/-- CONSTRUCT with template blank nodes: the graphs agree up to a renaming of the minted nodes (the model and the
+    specification enumerate the solutions in different orders).  Stated only; the harness compares the graphs
+    up to that renaming on every run. -/
+def renameFresh (f : Nat × Nat → Nat × Nat) : Term → Term
+  | .fresh s l => .fresh (f (s, l)).1 (f (s, l)).2
+  | t => t
 
-theorem pushdown_partial (n : Nat) (D : Dataset) (P : Alg) (hD : D.WF) (hf : P.inFragment = true)
-    (hs : P.safe = true) (hws : WellScoped n P) (g : Graph) (μ0 : Row n) :
+def Statement_construct_correct_blank : Prop :=
+  ∀ (n : Nat) (D : Dataset) (tpl : List TTP) (pv : List Nat) (p : Alg), D.WF → p.safe = true → WellScoped n p →
+    (∀ tp ∈ tpl, ∀ v ∈ tposVars tp.1 ++ tposVars tp.2.1 ++ tposVars tp.2.2, v ∈ pv ∨ v ∉ p.may) →
+    ∃ f : Nat × Nat → Nat × Nat, Function.Injective f ∧
+      ∀ t : Triple,
+        t ∈ Model.fillAll tpl ((Model.evalPart D D.dflt (Row.empty : Row n) p).map (·.restrict pv)) 0 ↔
+        ∃ t' ∈ Spec.instTemplate tpl (Spec.eval D D.dflt (Row.empty : Row n) p) 0,
+          t = (renameFresh f t'.1, renameFresh f t'.2.1, renameFresh f t'.2.2)
+
+/-! ### Proved -/
+
+/-- every operator of the property, EXISTS / NOT EXISTS included: the only hypothesis beyond well-formedness is `Safe` -/
+theorem pushdown : Statement_pushdown := by
+  intro n D P hD hs hws g μ0
+  exact pushdown_fragment hD P (Alg.inFragment_true P) hs hws g μ0
+
+/-- the same under the name the conventions give to "the literal property under a decidable hypothesis" -/
+theorem pushdown_partial (n : Nat) (D : Dataset) (P : Alg) (hD : D.WF) (hs : P.safe = true)
+    (hws : WellScoped n P) (g : Graph) (μ0 : Row n) :
     (Model.evalPart D g μ0 P).Perm (push μ0 (Spec.eval D g Row.empty P)) :=
-  pushdown_fragment hD P hf hs hws g μ0
+  pushdown n D P hD hs hws g μ0
 
 /-- at the top of a query nothing is pushed in: the model's bag IS the algebra's bag -/
-theorem evalPart_top (n : Nat) (D : Dataset) (P : Alg) (hD : D.WF) (hf : P.inFragment = true)
-    (hs : P.safe = true) (hws : WellScoped n P) (g : Graph) :
+theorem evalPart_top (n : Nat) (D : Dataset) (P : Alg) (hD : D.WF) (hs : P.safe = true)
+    (hws : WellScoped n P) (g : Graph) :
     (Model.evalPart D g (Row.empty : Row n) P).Perm (Spec.eval D g Row.empty P) := by
-  simpa using pushdown_fragment hD P hf hs hws g (Row.empty : Row n)
+  simpa using pushdown n D P hD hs hws g (Row.empty : Row n)
 
-theorem eval_correct_partial (n : Nat) (D : Dataset) (q : Query) (hD : D.WF) (hf : q.inFragment = true)
-    (hs : q.safe = true) (hws : WellScoped n q.pattern) (hg : q.groundTemplate) :
-    ResultEq (Model.evalQuery (n := n) D q) (Spec.evalQuery D q) := by
+theorem eval_correct : Statement_eval_correct := by
+  intro n D q hD hs hws hg
   cases q with
   | select pv p =>
-    exact ⟨rfl, (evalPart_top n D p hD hf hs hws D.dflt).map _⟩
+    exact ⟨rfl, (evalPart_top n D p hD hs hws D.dflt).map _⟩
   | ask pv p =>
-    have h := evalPart_top n D p hD hf hs hws D.dflt
+    have h := evalPart_top n D p hD hs hws D.dflt
     simp only [Model.evalQuery, Spec.evalQuery, ResultEq]
     have : ((Model.evalPart D D.dflt (Row.empty : Row n) p).map (·.restrict pv)).isEmpty =
         (Spec.eval D D.dflt (Row.empty : Row n) p).isEmpty := by
       rw [List.isEmpty_map]
-      have hl := h.length_eq
-      cases hA : Model.evalPart D D.dflt (Row.empty : Row n) p <;>
-        cases hB : Spec.eval D D.dflt (Row.empty : Row n) p <;> simp_all
+      exact isEmpty_of_perm h
     rw [this]
   | construct tpl pv p =>
-    have h := evalPart_top n D p hD hf hs hws D.dflt
+    have h := evalPart_top n D p hD hs hws D.dflt
     obtain ⟨hg1, hg2⟩ := hg
     simp only [Model.evalQuery, Spec.evalQuery, ResultEq]
     intro t
     rw [fillAll_eq, mem_instTemplate_ground hg1, mem_instTemplate_ground hg1]
     have hb : ∀ μ ∈ Spec.eval D D.dflt (Row.empty : Row n) p, BoundsOK μ p.must p.may :=
-      fun μ hμ => spec_bounds p hf hws D.dflt μ hμ
+      fun μ hμ => spec_bounds p (Alg.inFragment_true p) hws D.dflt μ hμ
     constructor
     · rintro ⟨μ', hμ', tp, htp, ht⟩
       obtain ⟨μ, hμ, rfl⟩ := List.mem_map.mp hμ'
@@ -127,11 +150,16 @@ theorem eval_correct_partial (n : Nat) (D : Dataset) (q : Query) (hD : D.WF) (hf
         | none => rfl
         | some y => exact absurd ((hb μ hμ).2 v (by simp [hget])) h1
 
+theorem eval_correct_partial (n : Nat) (D : Dataset) (q : Query) (hD : D.WF) (hs : q.safe = true)
+    (hws : WellScoped n q.pattern) (hg : q.groundTemplate) :
+    ResultEq (Model.evalQuery (n := n) D q) (Spec.evalQuery D q) :=
+  eval_correct n D q hD hs hws hg
+
 /-- ASK is true iff the algebra's multiset is non-empty -/
-theorem ask_correct_partial (n : Nat) (D : Dataset) (pv : List Nat) (p : Alg) (hD : D.WF)
-    (hf : p.inFragment = true) (hs : p.safe = true) (hws : WellScoped n p) :
+theorem ask_correct (n : Nat) (D : Dataset) (pv : List Nat) (p : Alg) (hD : D.WF)
+    (hs : p.safe = true) (hws : WellScoped n p) :
     Model.evalQuery (n := n) D (.ask pv p) = .bool (!(Spec.eval D D.dflt (Row.empty : Row n) p).isEmpty) := by
-  have := eval_correct_partial n D (.ask pv p) hD hf hs hws trivial
+  have := eval_correct n D (.ask pv p) hD hs hws trivial
   simp only [Spec.evalQuery] at this
   cases hm : Model.evalQuery (n := n) D (.ask pv p) with
   | bool b => rw [hm] at this; simp only [ResultEq] at this; rw [this]
@@ -139,12 +167,12 @@ theorem ask_correct_partial (n : Nat) (D : Dataset) (pv : List Nat) (p : Alg) (h
   | graph _ => simp [Model.evalQuery] at hm
 
 /-- CONSTRUCT yields the (blank-node-free) template instantiated over the algebra's multiset -/
-theorem construct_correct_partial (n : Nat) (D : Dataset) (tpl : List TTP) (pv : List Nat) (p : Alg) (hD : D.WF)
-    (hf : p.inFragment = true) (hs : p.safe = true) (hws : WellScoped n p)
+theorem construct_correct (n : Nat) (D : Dataset) (tpl : List TTP) (pv : List Nat) (p : Alg) (hD : D.WF)
+    (hs : p.safe = true) (hws : WellScoped n p)
     (hg : (Query.construct tpl pv p).groundTemplate) :
     ResultEq (Model.evalQuery (n := n) D (.construct tpl pv p))
       (.graph (Spec.instTemplate tpl (Spec.eval D D.dflt (Row.empty : Row n) p) 0)) :=
-  eval_correct_partial n D (.construct tpl pv p) hD hf hs hws hg
+  eval_correct n D (.construct tpl pv p) hD hs hws hg
 
 end RV.C04
 
@@ -210,9 +238,22 @@ def exPattern : Alg :=
     3 (.cmp .eq (.var 1) (.var 0)) [0, 1, 3]
 def exData : Dataset := ⟨[(i 0, i 10, i 1), (i 1, i 10, i 1), (i 1, i 11, i 2), (i 1, i 11, i 1)], []⟩
 
-example : exPattern.inFragment = true ∧ exPattern.safe = true ∧ (∀ v ∈ exPattern.allVars, v < 4) := by decide
+example : exPattern.safe = true ∧ (∀ v ∈ exPattern.allVars, v < 4) := by decide
 example : (Model.evalPart exData exData.dflt (Row.empty : Row 4) exPattern).length = 4 := by decide +kernel
 example : (Spec.eval exData exData.dflt (Row.empty : Row 4) exPattern).length = 4 := by decide +kernel
+/-- `{ ?v0 <10> ?v1 FILTER(NOT EXISTS { ?v1 <11> ?v0 } || EXISTS { GRAPH ?v2 { ?v1 <11> ?v3 } }) }` -/
+def exPattern2 : Alg :=
+  .filter (.or (.exists true (.join false (.bgp []) (.bgp [tp (.var 1) (.const (i 11)) (.var 0)])))
+               (.exists false (.join false (.bgp []) (.graph (.var 2) (.bgp [tp (.var 1) (.const (i 11)) (.var 3)])))))
+    (.bgp [tp (.var 0) (.const (i 10)) (.var 1)]) [0, 1] false
+def exData2 : Dataset := ⟨[(i 0, i 10, i 1), (i 1, i 10, i 1), (i 1, i 11, i 1)], [(i 20, [(i 1, i 11, i 2)])]⟩
+
+example : exPattern2.safe = true ∧ (∀ v ∈ exPattern2.allVars, v < 4) ∧ exData2.WF := by
+  refine ⟨by decide, by decide, ?_⟩
+  unfold Dataset.WF; decide
+example : (Model.evalPart exData2 exData2.dflt (Row.empty : Row 4) exPattern2).length = 2 := by decide +kernel
+example : (Spec.eval exData2 exData2.dflt (Row.empty : Row 4) exPattern2).length = 2 := by decide +kernel
+
 /-- push-down with a non-empty context that rules solutions out -/
 example : (Model.evalPart exData exData.dflt ((Row.empty : Row 4).set 0 (i 1)) exPattern).length = 2 := by decide +kernel
 
